@@ -77,7 +77,14 @@ def statement_stream(dialect, rng, n_mut, n_sent, grammar=None, with_corpus=True
         text, types, lexs = rng.choice(ct)
         seps = [rng.choice([' ', '\n', '  ', '\t', ' /* x */ ', ' -- y\n', '\n\n ']) for _ in lexs]
         yield dict(src='layout', text=''.join(l + s for l, s in zip(lexs, seps)))
-    for g in ['', ' ', ';', 'x y ; select 1', 'select 1 ; x y', ') select 1', 'select 1 )', 'select 1 select 2',
+    # separators at the START of the text are part of the token stream (only trailing ones are stripped)
+    for _ in range(max(10, n_mut // 20)):
+        a = rng.choice(ct)[0]
+        yield dict(src='lead', text=rng.choice([';', '; ', ';;', ' ;\n; ', ';\n', '; ;']) + a)
+    # texts without any token
+    for g in ['-- just a comment', '/* c */', ' -- c\n', '/* a */ -- b', '-- c\n;', '/* c */ ;']:
+        yield dict(src='fixed', text=g)
+    for g in ['', ' ', ';', '; select 1', ';;select a from t', ' ;\n; show tables', 'x y ; select 1', 'select 1 ; x y', ') select 1', 'select 1 )', 'select 1 select 2',
               'select', 'select 1 from', '(((', 'select 1 1', 'a b c d e f', 'select * from t where',
               'é', 'select \x00', '#', 'select 1 # c', "select 'abc", 'select "abc', 'select `abc']:
         yield dict(src='fixed', text=g)
